@@ -23,6 +23,28 @@ TRANSPARENT = {
 PAYLOAD_VARIANTS = {"Ok", "Some", "Continue", "Break", "Err"}
 
 
+class _FakeCallee:
+    name = "index"
+    path = "core::ops::Index::index"
+    full = "core::ops::Index::index"
+    self_ty = None
+    trait = "std::ops::Index"
+    krate = "core"
+    args = []
+    fnargs = []
+    impl_self = None
+    impl_adt = None
+    virtual = False
+    resolved = None
+    j = {}
+
+    def target(self):
+        return self.path
+
+
+_IDX_CALLEE = _FakeCallee()
+
+
 class Def:
     __slots__ = ("block", "idx", "kind", "place", "rv", "term")
 
@@ -130,6 +152,9 @@ class DefUse:
                 t = ("downcast", t, p["v"])
             elif k == "index":
                 t = ("index", t)
+            elif k == "constidx" and not p.get("from_end"):
+                # an element taken by a slice pattern (`[a, b] = &record[..]`): the same as record[i]
+                t = ("call", "core::ops::Index::index", [t, ("const", "int", p.get("off"), "usize")], -1, _IDX_CALLEE)
             else:
                 t = ("index", t)
         return t
